@@ -62,7 +62,8 @@ def act(cls, extra_locals=None, params=None, **kw):
     loc.update(extra_locals or {})
     return dict({"name": f"{cls}_activate", "module": "fuzzylite.activation", "object": f"{cls}.activate", "file": "CodeActivation",
                  "params": [("rules", f"List ({VIS})")] + (params or []),
-                 "ignore_locals": ["conjunction", "disjunction", "implication"],
+                 "alias_locals": {"conjunction": "rule_block.conjunction", "disjunction": "rule_block.disjunction",
+                                  "implication": "rule_block.implication"},
                  "locals": loc, "externals": ACT_EXT, "stmt_externals": ACT_STMT,
                  "loop_writeback": {"rule": "{ σ with visited := σ.visited ++ [σ.rule] }"}}, **kw)
 
@@ -98,7 +99,7 @@ HEAP = {"activated": "Nat", "activation_degree": "X Rat", "index": "Nat", "activ
 PARSE_PROFILE = {
     "name": "Function_parse", "module": "fuzzylite.term", "object": "Function.parse", "file": "CodeFunctionParse",
     "params": [("tbl", "Lang.Table"), ("formula", "String")],
-    "ignore_locals": ["factory"],
+    "alias_locals": {"factory": "settings.factory_manager.function"},
     "locals": {"postfix": "List String", "stack": "Stack Py.Node", "token": "String", "element": "Option Lang.Elem",
                "is_operand": "Bool", "node": "Py.Node"},
     "ret": "Py.Node",
@@ -322,7 +323,7 @@ PROFILES = [
         "name": "infix_to_postfix", "module": "fuzzylite.term", "object": "Function.infix_to_postfix", "file": "CodeFunction",
         "params": [("tbl", "Lang.Table"), ("formula", "String")],
         "rebind": {"formula": "formula1"},
-        "ignore_locals": ["factory"],
+        "alias_locals": {"factory": "settings.factory_manager.function"},
         "locals": {"formula1": "List String", "queue": "List String", "stack": "Stack String", "token": "String",
                    "element": "Option Lang.Elem", "is_operand": "Bool", "top": "Lang.Elem", "postfix": "String"},
         "ret": "String",
